@@ -26,6 +26,12 @@ FIELDS = [("string", "s"), ("string", "s2"), ("string", "opt"), ("varint", "n"),
           ("boolean", "b"), ("filesize", "size")]
 FIELDS2 = [("string", "s"), ("varint", "n"), ("string", "extra")]
 
+FIELDS_HELPER_EXPRS = [
+    "any(f.name == 'u' for f in fields('uri'))", "(fields('uri') == [])", "any(f.name == 'extra' for f in fields('string'))",
+    "all(f.name != 's0' for f in fields('string'))", "(str(fields('filesize')) == '[]')",
+    "(any(f.name == 'n0' for f in fields('varint')) or r.n > 5)", "(not fields('float'))",
+]
+
 ADAPTERS = ["stream", "jsonfile", "jsonfile-plain", "avro", "csvfile", "sqlite"]
 
 
@@ -55,6 +61,11 @@ def case_strategy(draw):
                          "full": False})
     expr = draw(selgen.expressions(3))
     form = draw(st.sampled_from(["text", "interpreted", "compiled"]))
+    if draw(st.integers(0, 9)) == 0:
+        # the interpreted engine's fields(<type>) helper answers per record type: a good probe for state that a
+        # selector object carries from one record to the next (the compiled engine does not have the helper)
+        expr = {"src": draw(st.sampled_from(FIELDS_HELPER_EXPRS)), "features": ["helper:fields"]}
+        form = draw(st.sampled_from(["text", "interpreted"]))
     perm = draw(st.permutations(list(range(n))))
     return {"adapter": adapter, "recs": recs, "expr": expr, "form": form, "perm": perm}
 
